@@ -4,6 +4,7 @@ usage: python -m hvmon.shard <Cxx> --tier t --seed s --shard i --nshards n --cas
        python -m hvmon.shard <Cxx> --tier t --seed s --only-index k --out f      (replay of one case)
 """
 
+import contextlib
 import argparse
 import importlib
 import json
@@ -16,6 +17,7 @@ import time
 import numpy as np
 
 from .ctx import Ctx
+from . import gen
 
 
 def assert_repo():
@@ -56,8 +58,16 @@ def run(mod, ctx, indices, seconds, family=None):
         if debug_logging:
             hv_logger.setLevel(logging.DEBUG)
             ctx.count("cases_with_hvsrpy_logging_at_DEBUG")
+        # the FORM of the array arguments is part of the caller's environment too: for a quarter of the cases the arrays
+        # the harness hands to hvsrpy's constructors arrive as strided views, read-only arrays, lists, big-endian arrays ...
+        # with the same values (gen.ArgumentForms); again a separate generator, so the case itself is unchanged
+        forms_rng = np.random.default_rng([ctx.seed, mod.NUM, idx, 78])
+        forms = gen.ArgumentForms(forms_rng, ctx) if forms_rng.random() < 0.25 else contextlib.nullcontext()
+        if not isinstance(forms, contextlib.nullcontext):
+            ctx.count("cases_with_array_arguments_in_other_forms")
         try:
-            fn(ctx, rng)
+            with forms:
+                fn(ctx, rng)
         except subprocess.TimeoutExpired as exc:
             # a generous wall-clock watchdog around a child process fired (loaded machine): that case is undecided,
             # never a violation; main.py reports the run as inconclusive when many cases end this way
